@@ -297,6 +297,8 @@ class Analysis:
                 st.ptr[p] = (p + "@base", Lin.const(0))
                 return st.ptr[p]
             return None
+        if s.k == "UnaryOperator" and s.get("op") == "*" and p and p in st.ptr:
+            return st.ptr[p]
         if s.k == "BinaryOperator" and s.get("op") in ("+", "-"):
             a = self.pointer(st, s.child(0))
             b = self.value(st, s.child(1))
@@ -532,8 +534,9 @@ class Analysis:
             if "[" + p + "]" in key:
                 del st.ptr[key]
 
-    def oblige_fact(self, st, node, kind, goal, text):
-        key = node.id if kind != "exit" else (node.id, text)
+    def oblige_fact(self, st, node, kind, goal, text, key=None):
+        if key is None:
+            key = node.id if kind != "exit" else (node.id, text)
         site = self.sites.setdefault(key, Site(node, kind, text))
         if entails(st.cons, goal):
             site.results.append((True, st.complete, False, text, None, None))
@@ -767,6 +770,15 @@ class Analysis:
                 eqs = [le(sp[1] + l1, cap), le(cap, sp[1] + l1)]      # (B1) wrapped: first part ends exactly at the end
                 st.nullcase[p2] = (eqs, [lt(sp[1] + l1, cap), l2, l2.scale(-1)])   # (B2) not wrapped: NUL inside, len2 = 0
             ret = self.new_sym(st, "get_parts", nonneg=True)
+        elif kind == "alloc":                     # returns NULL or a fresh object of arg[size] elements
+            sz = aval(ct.get("size", 0))
+            key = "alloc@%d" % n.id
+            cname = key + "$cap"
+            self.caps[key] = cname
+            if sz is not None:
+                st.env[cname] = sz
+            st.pvals[n.id] = (key, Lin.const(0))
+            return
         elif kind == "pure":
             pass
         if ret is None and n.get("tk") in INT_TK:
